@@ -129,6 +129,9 @@ func main() {
 				usage()
 			}
 			replay = os.Args[i+1]
+			if abs, err := filepath.Abs(replay); err == nil {
+				replay = abs
+			}
 			i++
 		default:
 			usage()
